@@ -351,29 +351,43 @@ class CallMixin(object):
             nrows *= len(fo.domain(sl))
         if nrows > 8192:
             return c
-        fins = [a for a in atoms if isinstance(a, Fin)]
-        uniq = []
-        seen = {}
-        for a in fins:
-            k = a.sortkey()
-            if k not in seen:
-                seen[k] = len(uniq)
-                uniq.append(a)
+        slots = set()
+        for a in atoms:
+            if isinstance(a, Fin):
+                slots.update(a.slots)
+        slots, rows = fo.rows(slots)
+        if rows is None:
+            return c
+        MISS = object()
+        index = dict((s_, i) for i, s_ in enumerate(slots))
 
-        def ev(x, vals):
+        def ev(x, r):
             if isinstance(x, Const):
                 return bool(truth_const(x.v))
             if isinstance(x, Fin):
-                return bool(truth_const(vals[seen[x.sortkey()]]))
+                v = x.table.get(tuple(r[index[s_]] for s_ in x.slots), MISS)
+                return MISS if v is MISS else bool(truth_const(v))
             if x.op == "not":
-                return not ev(x.args[0], vals)
-            if x.op == "and":
-                return all(ev(a, vals) for a in x.args)
-            return any(ev(a, vals) for a in x.args)
+                v = ev(x.args[0], r)
+                return MISS if v is MISS else (not v)
+            # short-circuit semantics: a later operand may be undefined (computed under the
+            # assumption that the earlier ones did not decide the result)
+            for a in x.args:
+                v = ev(a, r)
+                if v is MISS:
+                    return MISS
+                if x.op == "and" and not v:
+                    return False
+                if x.op == "or" and v:
+                    return True
+            return x.op == "and"
 
-        if not uniq:
-            return Const(ev(c, []))
-        return fo.fold(lambda *vals: ev(c, vals), uniq)
+        table = {}
+        for r in rows:
+            v = ev(c, r)
+            if v is not MISS:
+                table[r] = v
+        return fo.simplify(Fin(slots, table))
 
     def conv_float(self, st, x, node, module):
         if isinstance(x, Const):
@@ -575,6 +589,11 @@ class CallMixin(object):
             if name in ("copy_abs", "normalize", "to_integral_value", "sqrt", "ln", "exp", "__round__"):
                 return P.atom(App("decmeth:" + name, (p,)), p.kind)
             raise AnalysisError("E5.call", "numeric method %s" % name, node, module)
+        if isinstance(recv, App) and recv.op == "ite":
+            # methods distribute over a gated value
+            a = self.call_method(st, recv.args[1], name, args, kwargs, node, module)
+            b = self.call_method(st, recv.args[2], name, args, kwargs, node, module)
+            return self.mk_ite(st, recv.args[0], a, b)
         if isinstance(recv, (Opaque, App)):
             deps = deps_of(recv)
             for a in args:
@@ -582,7 +601,8 @@ class CallMixin(object):
                     deps |= deps_of(a)
             if name in ("startswith", "endswith") and args and isinstance(args[0], Const):
                 return App(name, (recv, args[0]))
-            return Opaque("meth:" + name, deps)
+            sig = ",".join([repr(a.v) if isinstance(a, Const) else "?" for a in args] + ["%s=%s" % (k, repr(v.v) if isinstance(v, Const) else "?") for k, v in sorted(kwargs.items())])
+            return Opaque("meth:%s(%s)" % (name, sig), deps | {"opaque:" + recv.tag if isinstance(recv, Opaque) else "app"})
         if isinstance(recv, TupleVal):
             if name == "index" or name == "count":
                 raise AnalysisError("E5.call", "tuple.%s" % name, node, module)
